@@ -76,7 +76,9 @@ SWITCHES = {
     # RELEASE_NOTES: "this API [ncmpi_set_fill] has no effect on the already existing variables created in the previous
     # define mode".  True: the model keeps the mode of variables of earlier scopes across a set_fill in a later scope and
     # asserts it (inq_var_fill, fill_var_rec).  False: their mode becomes unknown to the model.
-    "set_fill_redef_keeps_old_modes": True,
+    # Confirmed discrepancy on the unchanged tree (ncmpio_set_fill overwrites no_fill of ALL variables), replay
+    # replays/C16/set-fill-in-redef-changes-old-variable-mode.json (which forces the switch on).
+    "set_fill_redef_keeps_old_modes": False,
 }
 
 
